@@ -1,4 +1,5 @@
 import AvoVerif.Props.C09
+import AvoVerif.Props.C09Tables
 #print axioms Avo.Func.ltLoop_ok_iff
 #print axioms Avo.Func.labelTarget_ok_iff
 #print axioms Avo.Func.labelTarget_spec
@@ -7,3 +8,5 @@ import AvoVerif.Props.C09
 #print axioms Avo.Func.pred_iff
 #print axioms Avo.Func.buildCFG_ok
 #print axioms Avo.Func.buildCFG_err_iff
+#print axioms Avo.Func.features_are_x86_classes
+#print axioms Avo.Func.rel_operand_opcodes
